@@ -808,7 +808,18 @@ impl MigrationState {
     /// only authorizing data — so a consumer broadcasting a stored transaction has nothing to tell
     /// the engine that the engine does not already know better.
     pub fn mark_broadcast(&mut self, id: MigrationTransferId) {
-        if let Some(tx) = self.transactions.iter_mut().find(|t| t.id == id) {
+        // A transaction that is already `Mined` stays mined: the record of a submission arrives
+        // late when the drive loop's in-flight sweep promoted the row first (a consumer that
+        // submitted and was slow, or restarted, before recording it), and letting it through
+        // would demote the row to `Broadcast` -- under a `Complete` status that
+        // `recompute_status` never revisits. Only a chain rollback un-mines a transaction
+        // ([`Self::truncate_to_height`]).
+        if let Some(tx) = self
+            .transactions
+            .iter_mut()
+            .find(|t| t.id == id)
+            .filter(|t| !matches!(t.state, MigrationTxState::Mined { .. }))
+        {
             // The id is the one derived when the transaction was built, not one the caller
             // supplies: a consumer broadcasting a stored transaction cannot produce a different
             // one, and being able to pass a mismatched id was a way to lose track of a
